@@ -30,7 +30,7 @@ INPUTS = {
                 "kind": "x"}],
     "reserved": [{"field": 1, "attr": "x", "dataclass": True, "type": 2, "optional": None, "convert_strings": "1"}],
     # a plain type next to its own pseudo-type inside a list / under Optional / in a mapping (what a renderer could be tempted to fold)
-    "mixed": [{"vals": [0.5, "1.5"], "n": 10, "w": [1, "2", None]}, {"vals": [], "n": None, "w": []}, {"vals": [2.5], "n": "30", "w": ["x1"]}],
+    "mixed": [{"vals": [0.5, "1.5"], "n": 10, "w": [1, "2", None], "0items": [{"v": 1}], "config": {"debug": 1, "meta": {"x": 1}}, "9lives": {"k": 1}}, {"vals": [], "n": None, "w": []}, {"vals": [2.5], "n": "30", "w": ["x1"]}],
     # the same model twice with its keys in a different order (equal as a dict, same index in its own registry)
     "permA": [{"b": 1, "a": "x", "c": 1.5, "sub": {"z": 1, "y": "s"}}],
     "permB": [{"a": "x", "c": 1.5, "b": 1, "sub": {"y": "s", "z": 1}}],
